@@ -127,10 +127,21 @@ func setMemLimit(gib uint64) {
 // under test may print to the process's standard output - a built-in called with odd arguments, a warning of the
 // interpreter - and such text must not land inside a protocol line), standard output otherwise (manual runs).
 func ProtoOut() *os.File {
-	if os.Getenv("VERIF_PROTO_FD") == "3" {
-		return os.NewFile(3, "proto")
+	if protoFile != nil {
+		return protoFile
 	}
 	return os.Stdout
+}
+
+var protoFile *os.File
+
+func init() {
+	// The variable is consumed here: processes started by a harness (the race binary, isolated children, snapshot
+	// stages) talk to their parent over their standard output and must not inherit it.
+	if os.Getenv("VERIF_PROTO_FD") == "3" {
+		protoFile = os.NewFile(3, "proto")
+		_ = os.Unsetenv("VERIF_PROTO_FD")
+	}
 }
 
 // StaticWorker enumerates the tier's cases and executes those of its shard.
